@@ -146,8 +146,18 @@ def _rebuild(node, keys, names):
     return node
 
 
+class ModelRaised(NotConst):
+    """Evaluating a modelled pure call raised a Python exception (the repository expression would raise it too)."""
+
+    def __init__(self, name, text=""):
+        NotConst.__init__(self, f"{name}: {text}")
+        self.name = name
+
+
 STR_METHODS = {"startswith", "endswith", "rstrip", "lstrip", "strip", "count", "find", "rfind", "replace", "isdigit", "splitlines",
-               "rsplit", "partition", "rpartition", "index", "capitalize", "title", "isalnum", "isalpha"}
+               "rsplit", "partition", "rpartition", "index", "capitalize", "title", "isalnum", "isalpha", "translate", "removeprefix",
+               "removesuffix", "isspace", "islower", "isupper", "zfill", "ljust", "rjust", "center", "hex", "tobytes", "format", "swapcase", "casefold",
+               "expandtabs"}
 
 
 def _fold(node, env, funcs):
@@ -161,6 +171,13 @@ def _fold(node, env, funcs):
     for f in node._fields:
         if hasattr(node, f):
             setattr(new, f, _fold(getattr(node, f), env, funcs))
+    if isinstance(new, ast.Attribute) and isinstance(getattr(new, "ctx", None), ast.Load) and not new.attr.startswith("__") and new.attr != "_sa_model":
+        try:
+            recv = const_eval(new.value, env)
+        except NotConst:
+            recv = None
+        if getattr(recv, "_sa_model", False) and hasattr(recv, new.attr) and not callable(getattr(recv, new.attr)):
+            return ast.Constant(value=getattr(recv, new.attr))   # data attribute of a checker-supplied model object
     if isinstance(new, ast.Call) and not new.keywords:
         try:
             callee = dotted(node.func)
@@ -182,7 +199,7 @@ def _fold(node, env, funcs):
         except NotConst:
             pass
         except Exception as ex:  # e.g. TypeError mixing str/bytes: the repository expression itself would raise
-            raise NotConst(f"{type(ex).__name__}: {ex}")
+            raise ModelRaised(type(ex).__name__, str(ex))
     return new
 
 
@@ -301,19 +318,95 @@ class InterpError(Exception):
     pass
 
 
-def interpret(func, args: Dict[str, object], mapping: Optional[Dict[str, object]] = None, max_steps: int = 10000, funcs: Optional[dict] = None):
-    """Finite-domain evaluation of a *pure, loop-free* repository function with the whitelisted
-    evaluator: statements Assign / AugAssign / If / Return / Raise / Pass / docstring over names,
-    with the expressions listed in ``mapping`` (normalised text -> value, e.g. ``self.getFileSize()``)
-    treated as inputs.  Returns ("return", value) or ("raise", exception name).  Anything else in the
-    body is an InterpError (the caller turns it into an analysis error)."""
-    env = dict(args)
-    mapping = dict(mapping or {})
+import posixpath as _pp
+
+# ---- model of os / os.path on the analysed (POSIX) platform: constants and pure helpers --------------------------
+OS_MAPPING: Dict[str, object] = {}
+for _pfx in ("os.", "os.path."):
+    OS_MAPPING.update({_pfx + "sep": "/", _pfx + "pardir": "..", _pfx + "curdir": ".", _pfx + "altsep": None, _pfx + "extsep": ".", _pfx + "pathsep": ":"})
+OS_MAPPING["os.linesep"] = "\n"
+OS_MAPPING["os.name"] = "posix"
+
+
+def _commonpath(xs):
+    return _pp.commonpath(list(xs))
+
+
+_OS_PATH_FUNCS = {"normpath": _pp.normpath, "abspath": _pp.abspath, "join": _pp.join, "basename": _pp.basename, "dirname": _pp.dirname, "split": _pp.split,
+                  "splitext": _pp.splitext, "commonpath": _commonpath, "commonprefix": lambda xs: _pp.commonprefix(list(xs)), "isabs": _pp.isabs,
+                  "realpath": _pp.normpath, "normcase": _pp.normcase, "relpath": _pp.relpath, "splitdrive": _pp.splitdrive, "expanduser": lambda p: p}
+OS_FUNCS: Dict[str, object] = {}
+for _k, _v in _OS_PATH_FUNCS.items():
+    OS_FUNCS[_k] = _v
+    OS_FUNCS["os.path." + _k] = _v
+    OS_FUNCS["posixpath." + _k] = _v
+OS_FUNCS["joinpath"] = _pp.join          # `from os.path import join as joinpath` (twisted.python.filepath)
+OS_FUNCS["os.fspath"] = lambda p: p
+OS_FUNCS["os.fsencode"] = lambda p: p.encode("utf-8") if isinstance(p, str) else p
+OS_FUNCS["os.fsdecode"] = lambda p: p.decode("utf-8") if isinstance(p, bytes) else p
+
+BUILTIN_FUNCS = {"isinstance": isinstance, "abs": abs, "bool": bool, "sum": sum, "any": any, "all": all, "divmod": divmod, "reversed": lambda x: list(reversed(x)),
+                 "enumerate": lambda x, *a: list(enumerate(x, *a)), "zip": lambda *a: list(zip(*a)), "repr": repr, "memoryview": memoryview, "hex": hex,
+                 "iter": iter, "next": next, "type": type, "round": round, "float": float, "slice": slice}
+BUILTIN_NAMES = {"str": str, "bytes": bytes, "int": int, "bytearray": bytearray, "tuple": tuple, "list": list, "dict": dict, "set": set, "frozenset": frozenset,
+                 "float": float, "bool": bool, "object": object, "memoryview": memoryview}
+
+_EXC_PARENTS = {"UnicodeDecodeError": ["UnicodeError", "ValueError"], "UnicodeEncodeError": ["UnicodeError", "ValueError"], "UnicodeError": ["ValueError"],
+                "KeyError": ["LookupError"], "IndexError": ["LookupError"], "FileNotFoundError": ["OSError"], "PermissionError": ["OSError"],
+                "ZeroDivisionError": ["ArithmeticError"], "OverflowError": ["ArithmeticError"], "StopIteration": [], "NotImplementedError": ["RuntimeError"]}
+
+
+class _Raised(Exception):
+    def __init__(self, name):
+        Exception.__init__(self, name)
+        self.name = name
+
+
+class _Break(Exception):
+    pass
+
+
+class _Continue(Exception):
+    pass
+
+
+def _exc_matches(raised: str, handler: ast.ExceptHandler) -> bool:
+    names = handler_names(handler)
+    if any(n in ("<bare>", "BaseException", "Exception") for n in names):
+        return True
+    short_ = raised.split(".")[-1]
+    anc, todo = {short_}, [short_]
+    while todo:
+        for p_ in _EXC_PARENTS.get(todo.pop(), []):
+            if p_ not in anc:
+                anc.add(p_)
+                todo.append(p_)
+    return bool(anc & set(names))
+
+
+def interpret(func, args: Dict[str, object], mapping: Optional[Dict[str, object]] = None, max_steps: int = 20000, funcs: Optional[dict] = None):
+    """Finite-domain evaluation of a *pure* repository function with the whitelisted evaluator (no
+    repository code runs): Assign (names, tuples, attributes, subscripts) / AugAssign / If / For / While /
+    Break / Continue / Try / Return / Raise / Assert / Pass / docstring.  The expressions listed in
+    ``mapping`` (normalised text -> value, e.g. ``self.getFileSize()``) are inputs; ``funcs`` maps callee text
+    to a python model of that callee.  os / os.path constants and pure helpers (posixpath) and a few pure
+    builtins are modelled by default.  Returns ("return", value) or ("raise", exception name).  A construct
+    outside this subset is an InterpError (the caller turns it into an analysis error in its own section)."""
+    env = dict(BUILTIN_NAMES)
+    env.update(args)
+    mp = dict(OS_MAPPING)
+    mp.update(mapping or {})
+    fs = dict(BUILTIN_FUNCS)
+    fs.update(OS_FUNCS)
+    fs.update(funcs or {})
     steps = [0]
+    current: List[str] = []
 
     def ev(e):
         try:
-            return subst_eval(e, mapping, env, funcs)
+            return subst_eval(e, mp, env, fs)
+        except ModelRaised as ex:
+            raise _Raised(ex.name)
         except NotConst as ex:
             raise InterpError(f"not evaluable: {src(e)} ({ex})")
 
@@ -321,11 +414,16 @@ def interpret(func, args: Dict[str, object], mapping: Optional[Dict[str, object]
         if isinstance(t, ast.Name):
             env[t.id] = v
         elif isinstance(t, (ast.Tuple, ast.List)):
-            vs = list(v)
+            try:
+                vs = list(v)
+            except TypeError:
+                raise _Raised("TypeError")
             if len(vs) != len(t.elts):
-                raise InterpError("unpack arity")
+                raise _Raised("ValueError")
             for a, b in zip(t.elts, vs):
                 assign(a, b)
+        elif isinstance(t, (ast.Attribute, ast.Subscript)):
+            mp[src(t)] = v       # later reads of the same expression see the stored value
         else:
             raise InterpError(f"assignment target not modelled: {src(t)}")
 
@@ -338,32 +436,107 @@ def interpret(func, args: Dict[str, object], mapping: Optional[Dict[str, object]
                 if isinstance(st.value, ast.Constant):
                     continue
                 ev(st.value)
-            elif isinstance(st, ast.Pass):
+            elif isinstance(st, (ast.Pass, ast.Import, ast.ImportFrom, ast.Global, ast.Nonlocal)):
                 continue
             elif isinstance(st, ast.Assign):
                 v = ev(st.value)
                 for t in st.targets:
                     assign(t, v)
-            elif isinstance(st, ast.AnnAssign) and st.value is not None:
-                assign(st.target, ev(st.value))
-            elif isinstance(st, ast.AugAssign) and isinstance(st.target, ast.Name):
-                cur = ast.BinOp(left=ast.Name(id=st.target.id, ctx=ast.Load()), op=st.op, right=st.value)
-                try:
-                    env[st.target.id] = subst_eval(cur, mapping, env, funcs)
-                except NotConst as ex:
-                    raise InterpError(f"not evaluable: {src(st)} ({ex})")
+            elif isinstance(st, ast.AnnAssign):
+                if st.value is not None:
+                    assign(st.target, ev(st.value))
+            elif isinstance(st, ast.AugAssign):
+                load = ast.Name(id=st.target.id, ctx=ast.Load()) if isinstance(st.target, ast.Name) else st.target
+                assign(st.target, ev(ast.BinOp(left=load, op=st.op, right=st.value)))
             elif isinstance(st, ast.If):
                 r = block(st.body if ev(st.test) else st.orelse)
+                if r is not None:
+                    return r
+            elif isinstance(st, ast.Assert):
+                if not ev(st.test):
+                    raise _Raised("AssertionError")
+            elif isinstance(st, ast.For):
+                broke = False
+                try:
+                    items = list(ev(st.iter))
+                except TypeError:
+                    raise _Raised("TypeError")
+                for item in items:
+                    assign(st.target, item)
+                    try:
+                        r = block(st.body)
+                    except _Break:
+                        broke = True
+                        break
+                    except _Continue:
+                        continue
+                    if r is not None:
+                        return r
+                if not broke and st.orelse:
+                    r = block(st.orelse)
+                    if r is not None:
+                        return r
+            elif isinstance(st, ast.While):
+                broke = False
+                while ev(st.test):
+                    steps[0] += 1
+                    if steps[0] > max_steps:
+                        raise InterpError("step limit")
+                    try:
+                        r = block(st.body)
+                    except _Break:
+                        broke = True
+                        break
+                    except _Continue:
+                        continue
+                    if r is not None:
+                        return r
+                if not broke and st.orelse:
+                    r = block(st.orelse)
+                    if r is not None:
+                        return r
+            elif isinstance(st, ast.Break):
+                raise _Break()
+            elif isinstance(st, ast.Continue):
+                raise _Continue()
+            elif isinstance(st, ast.Try):
+                r = None
+                try:
+                    try:
+                        r = block(st.body)
+                        if r is None and st.orelse:
+                            r = block(st.orelse)
+                    except _Raised as ex:
+                        h = next((h for h in st.handlers if _exc_matches(ex.name, h)), None)
+                        if h is None:
+                            raise
+                        current.append(ex.name)
+                        try:
+                            r = block(h.body)
+                        finally:
+                            current.pop()
+                finally:
+                    if st.finalbody:
+                        r2 = block(st.finalbody)
+                        if r2 is not None:
+                            r = r2
                 if r is not None:
                     return r
             elif isinstance(st, ast.Return):
                 return ("return", ev(st.value) if st.value is not None else None)
             elif isinstance(st, ast.Raise):
+                if st.exc is None:
+                    raise _Raised(current[-1] if current else "RuntimeError")
                 e = st.exc.func if isinstance(st.exc, ast.Call) else st.exc
-                return ("raise", dotted(e) if e is not None else "?")
+                raise _Raised(dotted(e) or src(e))
             else:
                 raise InterpError(f"statement not modelled: {type(st).__name__}")
         return None
 
-    r = block(func.body)
+    try:
+        r = block(func.body)
+    except _Raised as ex:
+        return ("raise", ex.name)
+    except (_Break, _Continue):
+        raise InterpError("break/continue outside a loop")
     return r if r is not None else ("return", None)
